@@ -343,35 +343,41 @@ def miri_engine(check, pid, tier, seed):
     if p.returncode != 0 and "RUN-OK" not in p.stdout and "Undefined Behavior" not in p.stderr and "VIOLATION-RECORD" not in p.stdout:
         return {"miri_scheduled": {"skipped": "cargo +nightly miri is not usable here: " + (p.stderr.strip().splitlines() or ["?"])[-1][:200]}}, [], 0
     nw = check.NCPU
-    per = max(1, int((150 if tier == "quick" else 4000) * check.SCALE))
+    # Miri's race detector keeps one vector-clock entry per thread ever created, so a process
+    # slows down quadratically with the number of scenarios it has run: many short processes.
+    chunk = 150
+    total = max(1, int((150 if tier == "quick" else 2400) * check.SCALE)) * nw
     rates = [0.05, 0.1, 0.25, 0.5]
-    jobs = []
-    for w in range(nw):
-        lo, hi = w * per, (w + 1) * per
+    chunks = [(lo, min(total, lo + chunk)) for lo in range(0, total, chunk)]
+    done, reported, ub_reports = 0, [], 0
+    os.makedirs(check.REPLAYS, exist_ok=True)
+
+    def run_chunk(arg):
+        w, (lo, hi) = arg
         mseed = (seed * 31 + w * 7919) % 1000003
         rate = rates[w % len(rates)]
         cmd, env = _miri_cmd(check, cls, seed, lo, hi, mseed, rate)
-        pr = subprocess.Popen(cmd, cwd=mdir, env=env, stdout=subprocess.PIPE, stderr=subprocess.PIPE, text=True)
-        jobs.append((pr, w, lo, hi, mseed, rate))
-    done, reported, ub_reports = 0, [], 0
-    os.makedirs(check.REPLAYS, exist_ok=True)
-    for pr, w, lo, hi, mseed, rate in jobs:
         try:
-            out, err = pr.communicate(timeout=3600)
+            pr = subprocess.run(cmd, cwd=mdir, env=env, stdout=subprocess.PIPE, stderr=subprocess.PIPE, text=True, timeout=3600)
+            return (w, lo, hi, mseed, rate, pr.returncode, pr.stdout, pr.stderr)
         except subprocess.TimeoutExpired:
-            pr.kill()
-            check.harness_error(f"miri worker {w} timed out")
+            return (w, lo, hi, mseed, rate, 124, "", "TIMEOUT")
+
+    results = _children(list(enumerate(chunks)), run_chunk, nw)
+    for w, lo, hi, mseed, rate, rc, out, err in results:
         begins = [l for l in out.splitlines() if l.startswith("BEGIN")]
         last = int(begins[-1].split("\t")[2]) if begins else lo
-        if pr.returncode == 0 and "RUN-OK" in out:
+        if rc == 0 and "RUN-OK" in out:
             done += hi - lo
             continue
+        if rc == 124:
+            check.harness_error(f"miri chunk {w} timed out")
         done += max(0, last - lo)
         ub = [l for l in err.splitlines() if "Undefined Behavior" in l or "memory leaked" in l]
         vr = [l for l in out.splitlines() if l.startswith("VIOLATION-RECORD")]
         if not ub and not vr:
             tail = " | ".join(err.strip().splitlines()[-3:])
-            check.harness_error(f"miri worker {w} ended with status {pr.returncode} without a report: {tail[:300]}")
+            check.harness_error(f"miri chunk {w} ended with status {rc} without a report: {tail[:300]}")
         ub_reports += 1
         cls_name = "miri:" + (ub[0].split("Undefined Behavior:")[1].strip()[:80] if ub and "Undefined Behavior:" in ub[0] else (vr[0].split("\t")[1] if vr else "report"))
         detail = (ub[0].strip() if ub else vr[0])[:300] + f" (scenario class {cls}, scenario index {last}, miri seed {mseed}, pre-emption rate {rate})"
@@ -385,11 +391,12 @@ def miri_engine(check, pid, tier, seed):
             reported.append(info)
         else:
             check.log(f"note: the Miri-scheduled scenarios of {pid} hit a report attributed to {sorted(props)}: {detail}")
+    per = chunk
     wall = time.time() - t0
     cov = {"miri_scheduled": {
         "what": "generated 2-3 thread clone/read/convert/drop (+ class-specific) scenarios on real threads inside Miri; Miri's seeded scheduler and weak-memory emulation decide the execution, its data-race / use-after-free / leak detection is the oracle; it also sees the library's own non-atomic accesses, which the baton simulator cannot",
-        "scenario_class": cls, "scenarios_executed": done, "worker_processes": nw, "scenarios_per_worker": per,
-        "miri_seeds": "(VERIF_SEED*31 + worker*7919) mod 1000003", "preemption_rates": rates, "reports": ub_reports, "wall_s": round(wall, 1),
+        "scenario_class": cls, "scenarios_executed": done, "concurrent_processes": nw, "scenarios_per_process": per, "processes": len(chunks),
+        "miri_seeds": "(VERIF_SEED*31 + chunk*7919) mod 1000003", "preemption_rates": rates, "reports": ub_reports, "wall_s": round(wall, 1),
         "flags": "-Zmiri-disable-stacked-borrows (the aliasing model is outside the properties)"}}
     return cov, reported[:4], done
 
